@@ -984,6 +984,10 @@ func (ex *Exec) store(p *Pointer, v Value) {
 				// publication: from now on the pointee must not be written
 				vp.Obj.Frozen = true
 			}
+			if sv, ok := v.(*SliceV); ok && sv.Arr != nil {
+				// a published slice: its backing array must not be written any more
+				sv.Arr.Frozen = true
+			}
 		}
 	}
 	p.Obj.UF = ""
